@@ -531,4 +531,65 @@ example : (boot roCfg (run roCfg (init roCfg) ([.valueChange "s1" (some (.num 7)
     = [] :=
   not_written_of_view roCfg roCfg_ok _ "s1" (.num 7) false true true (some (.num 7)) (by decide +kernel) (Or.inl rfl)
 
+/-! ### the device record under PATCH /device and PUT /device (= reset + load + set_attrs + save) -/
+
+/-- **device settings and password hashes survive a restart after ANY history** — edits through PATCH /device, resets
+through PUT /device (which removes the `device` record from the store before writing it again), restarts anywhere;
+no save-loop tick is needed, as both API calls save the record themselves: what a restart loads from the `device`
+record is the hub's last device state. -/
+theorem device_survives_restart (cfg : Cfg) (ok : CfgOK cfg) (ops : List Op) :
+    let st := run cfg (init cfg) ops
+    (boot cfg st.store).hub.device = st.hub.device := by
+  intro st
+  exact (inv_run cfg ok _ ops (inv_init cfg ok)).device
+
+/-- **PUT /device in any reachable state**: the name and the display name are those of the document (the defaults —
+host name, `''` — for what the document leaves out: the reset comes first), the three password hashes are the ones in
+force before the call, the record written after the reset holds exactly that state, and a restart reports it. -/
+theorem put_device_roundtrip (cfg : Cfg) (ok : CfgOK cfg) (ops : List Op) (name dn : Option String) :
+    let st := run cfg (init cfg) ops
+    let st' := (step cfg st (.putDev name dn)).1
+    st'.hub.device = { name := name.getD cfg.defName, displayName := dn.getD "",
+                       adminHash := st.hub.device.adminHash, normalHash := st.hub.device.normalHash,
+                       viewonlyHash := st.hub.device.viewonlyHash } ∧
+    st'.store.device = some (saveDevice st'.hub.device) ∧
+    (boot cfg st'.store).hub.device = st'.hub.device := by
+  intro st st'
+  have inv : Inv cfg st := inv_run cfg ok _ ops (inv_init cfg ok)
+  obtain ⟨a, b, c⟩ := inv.devWF
+  refine ⟨?_, rfl, (inv_step cfg ok st (.putDev name dn) inv).device⟩
+  show (step cfg st (.putDev name dn)).1.hub.device = _
+  simp only [step, resetDevice, orEmptyHash, if_neg a, if_neg b, if_neg c]
+
+/-- every device edit — PATCH /device as well as PUT /device — leaves the record of the `device` collection equal to the
+hub's device state, whatever was stored (or removed) before -/
+theorem device_saved_by_every_edit (cfg : Cfg) (st : State) (op : Op)
+    (h : (∃ d, op = .patchDev d) ∨ (∃ n dn, op = .putDev n dn)) :
+    (step cfg st op).1.store.device = some (saveDevice (step cfg st op).1.hub.device) := by
+  rcases h with ⟨d, rfl⟩ | ⟨n, dn, rfl⟩ <;> rfl
+
+/-- the history of seeded change C07-r4-2: a device save, PUT /device (backup restore), further edits, a restart -/
+def deviceOps : List Op :=
+  [.patchDev { name := some "hub1", displayName := some "Hub \"one\"", adminPw := some "s3cret" },
+   .patchDev { viewonlyPw := some "guest" },
+   .putDev (some "hub1") (some "Hub \"one\""),
+   .patchDev { displayName := some "cellar", normalPw := some "user" }]
+
+/-- non-vacuity: after that history and a restart the hub reports the last state (the theorem), and that state is the
+expected one: restored name, edited display name, all three passwords in force -/
+example : (boot (demoCfg true) (run (demoCfg true) (init (demoCfg true)) deviceOps).store).hub.device =
+    (run (demoCfg true) (init (demoCfg true)) deviceOps).hub.device :=
+  device_survives_restart (demoCfg true) demoCfg_ok deviceOps
+
+example : (boot (demoCfg true) (run (demoCfg true) (init (demoCfg true)) deviceOps).store).hub.device =
+    { name := "hub1", displayName := "cellar", adminHash := "h:s3cret", normalHash := "h:user",
+      viewonlyHash := "h:guest" } := by
+  decide +kernel
+
+/-- a PUT /device whose document has no name: the reset shows (default name), the passwords stay -/
+example : (boot (demoCfg true) (run (demoCfg true) (init (demoCfg true))
+      [.patchDev { name := some "hub1", adminPw := some "pw" }, .putDev none (some "d")]).store).hub.device =
+    { name := "hub", displayName := "d", adminHash := "h:pw", normalHash := "h:", viewonlyHash := "h:" } := by
+  decide +kernel
+
 end QtVerif.C07
